@@ -17,6 +17,10 @@ use std::process::{Child, Command, Stdio};
 use std::time::{Duration, Instant};
 
 pub fn cfg_to_toml(cfg: &Cfg, port: u16) -> String {
+    cfg_to_toml_tls(cfg, port, false)
+}
+
+pub fn cfg_to_toml_tls(cfg: &Cfg, port: u16, tls: bool) -> String {
     let mc = cfg.main_config();
     let mut s = String::new();
     s += &format!("name = \"{}\"\nadmin_info = \"{}\"\ninfo = \"{}\"\nlisten = \"127.0.0.1\"\nport = {}\nnetwork = \"{}\"\n", mc.name, mc.admin_info, mc.info, port, mc.network);
@@ -30,6 +34,9 @@ pub fn cfg_to_toml(cfg: &Cfg, port: u16) -> String {
         s += &format!("max_connections = {}\n", m);
     }
     s += &format!("ping_timeout = {}\npong_timeout = {}\nmotd = \"{}\"\ndns_lookup = false\nlog_level = \"ERROR\"\n", mc.ping_timeout, mc.pong_timeout, mc.motd);
+    if tls {
+        s += "\n[tls]\ncert_file = \"/repo/test_data/cert.crt\"\ncert_key_file = \"/repo/test_data/cert_key.crt\"\n";
+    }
     let d = mc.default_user_modes;
     s += &format!("\n[default_user_modes]\ninvisible = {}\noper = {}\nlocal_oper = {}\nregistered = {}\nwallops = {}\n", d.invisible, d.oper, d.local_oper, d.registered, d.wallops);
     if let Some(ops) = &mc.operators {
@@ -55,9 +62,9 @@ impl Drop for Server {
     }
 }
 
-fn start_server(bin: &str, cfg: &Cfg, port: u16, dir: &str) -> Option<Server> {
+fn start_server(bin: &str, cfg: &Cfg, port: u16, dir: &str, tls: bool) -> Option<Server> {
     let path = format!("{}/bind-{}.toml", dir, port);
-    std::fs::write(&path, cfg_to_toml(cfg, port)).ok()?;
+    std::fs::write(&path, cfg_to_toml_tls(cfg, port, tls)).ok()?;
     let child = Command::new(bin).args(["-c", &path]).stdin(Stdio::null()).stdout(Stdio::null()).stderr(Stdio::null()).spawn().ok()?;
     let srv = Server { child, port };
     // wait until it accepts
@@ -72,8 +79,80 @@ fn start_server(bin: &str, cfg: &Cfg, port: u16, dir: &str) -> Option<Server> {
     None
 }
 
+enum Sock {
+    Plain(TcpStream),
+    #[cfg(feature = "tls_rustls")]
+    Tls(Box<rustls::StreamOwned<rustls::ClientConnection, TcpStream>>),
+}
+
+impl Sock {
+    fn set_read_timeout(&mut self, d: Duration) {
+        match self {
+            Sock::Plain(s) => {
+                let _ = s.set_read_timeout(Some(d));
+            }
+            #[cfg(feature = "tls_rustls")]
+            Sock::Tls(s) => {
+                let _ = s.sock.set_read_timeout(Some(d));
+            }
+        }
+    }
+    fn read(&mut self, buf: &mut [u8]) -> std::io::Result<usize> {
+        match self {
+            Sock::Plain(s) => s.read(buf),
+            #[cfg(feature = "tls_rustls")]
+            Sock::Tls(s) => s.read(buf),
+        }
+    }
+    fn write_all(&mut self, b: &[u8]) -> std::io::Result<()> {
+        match self {
+            Sock::Plain(s) => s.write_all(b),
+            #[cfg(feature = "tls_rustls")]
+            Sock::Tls(s) => {
+                s.write_all(b)?;
+                s.flush()
+            }
+        }
+    }
+}
+
+#[cfg(feature = "tls_rustls")]
+pub fn tls_client_config() -> Option<std::sync::Arc<rustls::ClientConfig>> {
+    let f = std::fs::File::open("/repo/test_data/cert.crt").ok()?;
+    let mut certs: Vec<rustls::Certificate> = rustls_pemfile::certs(&mut std::io::BufReader::new(f)).ok()?.into_iter().map(rustls::Certificate).collect();
+    let mut store = rustls::RootCertStore { roots: vec![] };
+    store.add(&certs.remove(0)).ok()?;
+    Some(std::sync::Arc::new(rustls::ClientConfig::builder().with_safe_defaults().with_root_certificates(store).with_no_client_auth()))
+}
+
+fn connect(port: u16, tls: bool) -> Option<Sock> {
+    let s = TcpStream::connect(("127.0.0.1", port)).ok()?;
+    let _ = s.set_nodelay(true);
+    if !tls {
+        return Some(Sock::Plain(s));
+    }
+    #[cfg(feature = "tls_rustls")]
+    {
+        use std::convert::TryFrom;
+        let cfg = tls_client_config()?;
+        let name = rustls::client::ServerName::try_from("localhost").ok()?;
+        let conn = rustls::ClientConnection::new(cfg, name).ok()?;
+        let _ = s.set_read_timeout(Some(Duration::from_millis(2000)));
+        let mut st = rustls::StreamOwned::new(conn, s);
+        // complete the handshake now
+        while st.conn.is_handshaking() {
+            if st.conn.complete_io(&mut st.sock).is_err() {
+                return None;
+            }
+        }
+        return Some(Sock::Tls(Box::new(st)));
+    }
+    #[allow(unreachable_code)]
+    None
+}
+
 struct Client {
-    sock: Option<TcpStream>,
+    sock: Option<Sock>,
     buf: Vec<u8>,
     eof: bool,
 }
@@ -85,7 +164,7 @@ impl Client {
             Some(s) => s,
             None => return out,
         };
-        let _ = sock.set_read_timeout(Some(quiet));
+        sock.set_read_timeout(quiet);
         let mut tmp = [0u8; 8192];
         loop {
             match sock.read(&mut tmp) {
@@ -110,8 +189,8 @@ impl Client {
 }
 
 /// Execute one history over TCP; returns per step per connection lines.
-fn run_tcp(bin: &str, cfg: &Cfg, slots: usize, prelude: &[Act], hist: &[Act], port: u16, dir: &str) -> Option<Vec<Vec<Vec<String>>>> {
-    let srv = start_server(bin, cfg, port, dir)?;
+fn run_tcp(bin: &str, cfg: &Cfg, slots: usize, prelude: &[Act], hist: &[Act], port: u16, dir: &str, tls: bool) -> Option<Vec<Vec<Vec<String>>>> {
+    let srv = start_server(bin, cfg, port, dir, tls)?;
     let mut clients: Vec<Client> = (0..slots).map(|_| Client { sock: None, buf: vec![], eof: false }).collect();
     let mut out = vec![];
     let quiet = Duration::from_millis(25);
@@ -129,8 +208,7 @@ fn run_tcp(bin: &str, cfg: &Cfg, slots: usize, prelude: &[Act], hist: &[Act], po
         }
         match a {
             Act::Connect(i) => {
-                let s = TcpStream::connect(("127.0.0.1", srv.port)).ok()?;
-                let _ = s.set_nodelay(true);
+                let s = connect(srv.port, tls)?;
                 clients[*i] = Client { sock: Some(s), buf: vec![], eof: false };
             }
             Act::Send(i, l) => {
@@ -242,7 +320,11 @@ pub fn run_bind(name: &str, scn: &dyn Scenario, cfg: &Cfg, prelude_acts: &[Act],
                     }
                     let port = 21000 + (t as u16) * 600 + (i % 500) as u16;
                     let mem = run_mem(scn, &hs[i]);
-                    let tcp = run_tcp(bin, cfg, scn.slots(), prelude_acts, &hs[i], port, dir);
+                    let mut tcp = run_tcp(bin, cfg, scn.slots(), prelude_acts, &hs[i], port, dir, false);
+                    if tcp.is_none() {
+                        // one retry on another port (lingering sockets, busy machine)
+                        tcp = run_tcp(bin, cfg, scn.slots(), prelude_acts, &hs[i], port + 7000, dir, false);
+                    }
                     let verdict = match (mem, tcp) {
                         (Some(m), Some(t)) => {
                             let mut diff = None;
@@ -296,6 +378,106 @@ pub fn run_bind(name: &str, scn: &dyn Scenario, cfg: &Cfg, prelude_acts: &[Act],
     }
     r.samples = hs.iter().take(2).map(|h| json!(h.iter().map(|a| a.render()).collect::<Vec<_>>())).collect();
     r.extra = json!({"histories": n, "depth": depth, "binary": bin, "tcp_setup_failures": setup_fail});
+    r.wall_s = t0.elapsed().as_secs_f64();
+    r
+}
+
+/// C20 (d): enabling TLS changes the transport only. Every history is run over
+/// plain TCP against the binary started without [tls] and over TLS against the
+/// same binary started with [tls]; transcripts must be equal except for
+/// RPL_WHOISSECURE (671).
+pub fn run_tls_compare(name: &str, scn: &dyn Scenario, cfg: &Cfg, prelude_acts: &[Act], depth: usize, cap: usize, bin: &str, dir: &str) -> PartResult {
+    let t0 = Instant::now();
+    let mut r = PartResult::new(name, "E-BIND");
+    if !std::path::Path::new(bin).exists() {
+        r.machinery = Some(format!("TLS-enabled production binary {} not built", bin));
+        return r;
+    }
+    let hs = histories(scn, depth, cap);
+    let server = cfg.name.clone().unwrap_or_else(|| "irc.irc".into());
+    let n = hs.len();
+    let threads = crate::props::threads().min(8);
+    let idx = std::sync::atomic::AtomicUsize::new(0);
+    let out = std::sync::Mutex::new(vec![]);
+    std::thread::scope(|s| {
+        for t in 0..threads {
+            let idx = &idx;
+            let out = &out;
+            let hs = &hs;
+            let server = &server;
+            s.spawn(move || loop {
+                let i = idx.fetch_add(1, std::sync::atomic::Ordering::SeqCst);
+                if i >= n {
+                    break;
+                }
+                let port = 25000 + (t as u16) * 1200 + ((i * 2) % 1000) as u16;
+                let mut plain = run_tcp(bin, cfg, scn.slots(), prelude_acts, &hs[i], port, dir, false);
+                if plain.is_none() {
+                    plain = run_tcp(bin, cfg, scn.slots(), prelude_acts, &hs[i], port + 10000, dir, false);
+                }
+                let mut tls = run_tcp(bin, cfg, scn.slots(), prelude_acts, &hs[i], port + 1, dir, true);
+                if tls.is_none() {
+                    tls = run_tcp(bin, cfg, scn.slots(), prelude_acts, &hs[i], port + 10001, dir, true);
+                }
+                let verdict = match (plain, tls) {
+                    (Some(p), Some(t)) => {
+                        let mut diff = None;
+                        let mut saw671 = false;
+                        for (k, (ps, ts)) in p.iter().zip(t.iter()).enumerate() {
+                            for c in 0..ps.len().min(ts.len()) {
+                                let tl: Vec<String> = ts[c].iter().filter(|l| {
+                                    let is = l.contains(" 671 ");
+                                    if is {
+                                        saw671 = true;
+                                    }
+                                    !is
+                                }).cloned().collect();
+                                if canon_lines(server, &ps[c]) != canon_lines(server, &tl) {
+                                    diff = Some(format!("step {} connection {}: plain {:?} vs TLS {:?}", k, c, ps[c], ts[c]));
+                                    break;
+                                }
+                            }
+                            if diff.is_some() {
+                                break;
+                            }
+                        }
+                        (diff, saw671)
+                    }
+                    _ => (Some("machinery: TCP/TLS run could not be set up".to_string()), false),
+                };
+                out.lock().unwrap().push((i, verdict));
+            });
+        }
+    });
+    let results = out.into_inner().unwrap();
+    let mut setup_fail = 0;
+    let mut any671 = false;
+    for (i, (v, s671)) in results {
+        any671 = any671 || s671;
+        if let Some(d) = v {
+            if d.starts_with("machinery") {
+                setup_fail += 1;
+                continue;
+            }
+            if r.violations.len() < 10 {
+                r.violations.push(Violation { scenario: name.to_string(), sig: "tls:transcripts-differ".into(), detail: d, history: hs[i].clone(), transcript: vec![] });
+            }
+        }
+    }
+    r.evaluations = n as u64 * 2;
+    r.states = n as u64;
+    r.transitions = hs.iter().map(|h| h.len() as u64).sum::<u64>() * 2;
+    r.distinct = n as u64;
+    r.traces = ((n - setup_fail) * 2) as u64;
+    r.exhaustive = setup_fail == 0;
+    if setup_fail > 0 {
+        r.cap = Some(format!("{} of {} histories could not be run (loopback/port/TLS trouble)", setup_fail, n));
+    }
+    if setup_fail == n && n > 0 {
+        r.machinery = Some("no history could be run over TLS".into());
+    }
+    r.samples = hs.iter().take(2).map(|h| json!(h.iter().map(|a| a.render()).collect::<Vec<_>>())).collect();
+    r.extra = json!({"histories": n, "depth": depth, "binary": bin, "setup_failures": setup_fail, "rpl_whoissecure_seen_over_tls": any671});
     r.wall_s = t0.elapsed().as_secs_f64();
     r
 }
